@@ -8,8 +8,9 @@ import C12, C10
 ASSUMPTIONS = [
     'claimed for the DECISION and BOOKKEEPING step of a fork switch: commit_prove_state (real text, ordered ghost log of every effect) and '
     'build_prove_request_content (re-basing onto a remembered header), plus the gating of the documented long-fork abort',
-    'DECLINED: that rollback_to_block restores the pre-fork live cells / history (it parses key bytes positionally and scans RocksDB in reverse; '
-    'the byte-level sorted store of the size needed does not finish in CBMC), continued syncing after the switch and absence of stalls (liveness)',
+    'DECLINED: that rollback_to_block restores the pre-fork live cells / history: the unit exists (kani_model/rollback: real text over sorted byte-level rows) and its '
+    'native smoke run found a genuine defect (fixed: e8d6a59), but CBMC does not finish its symbolic execution, so NO solver verdict is claimed for it; '
+    'continued syncing after the switch and absence of stalls (liveness)',
     'U256 -> 64 bits; hashes 1-byte identifiers; <=3 remembered headers, <=3 reorg headers, <=3 pending records; last-N in 1..3',
 ]
 
@@ -43,6 +44,22 @@ RB_CUTS = ['RocksDB -> sorted array of <= 3 byte-level rows (ordered reverse ite
            'get_filter_scripts / get_min_filtered_block_number -> model accessors']
 
 
+def experimental_obligations():
+    """NOT registered: CBMC's symbolic execution of this byte-level unit does not finish (> 25 min even for one row / one script); the unit is
+    exercised by its native smoke run only (cargo test in kani_model/rollback, see DESIGN.md 11.3)."""
+    return [
+        KModelOb('O4.2-rollback', 'rollback', 'rollback_any', 'Storage::rollback_to_block(to) + get_transaction (real text, real key encoding) from an ARBITRARY sorted set of history rows: exactly the '
+                 'history rows of scripts recorded at or above the fork point, in blocks at or above it, are deleted; the live cells they created are deleted; the cells they spent are restored '
+                 '(right creating block / tx index / output index -> creating transaction); a cell created AND spent above the fork point ends up deleted; those scripts are re-recorded at the '
+                 'fork point; MIN_FILTERED_NUMBER is rewound to fork point - 1 iff it lies above; nothing else is written; one atomic batch', ex_rollback,
+                 '<= 3 rows of arbitrary key space / script / position, <= 2 registered scripts, 2 stored transactions, arbitrary fork point', cuts=RB_CUTS, timeout=2400, mem_gb=16,
+                 min_covers=2, weight=8, field_sensitivity=True),
+        KModelOb('O4.2-rollback-prefix', 'rollback', 'rollback_prefix_related', 'as O4.2-rollback with two registered scripts of which one continues the other (same code hash / hash type, args extended by one byte): '
+                 'the rows of the longer script are never parsed as rows of the shorter one', ex_rollback,
+                 '<= 3 rows, 2 prefix-related scripts', cuts=RB_CUTS, timeout=2400, mem_gb=16, min_covers=1, weight=8, field_sensitivity=True),
+    ]
+
+
 def obligations():
     c12 = {o.ob_id: o for o in C12.obligations()}
     c10 = {o.ob_id: o for o in C10.obligations()}
@@ -56,15 +73,6 @@ def obligations():
                  'last-N in 1..3, <=3 remembered headers, arbitrary 64-bit numbers / difficulties; sample_blocks replaced by its contract', timeout=1200,
                  mem_gb=10, min_covers=2, weight=3, cuts=['sampling::sample_blocks -> contract stub (decided in unit sampling)', 'Storage -> model']),
         o44,
-        KModelOb('O4.2-rollback', 'rollback', 'rollback_any', 'Storage::rollback_to_block(to) + get_transaction (real text, real key encoding) from an ARBITRARY sorted set of history rows: exactly the '
-                 'history rows of scripts recorded at or above the fork point, in blocks at or above it, are deleted; the live cells they created are deleted; the cells they spent are restored '
-                 '(right creating block / tx index / output index -> creating transaction); a cell created AND spent above the fork point ends up deleted; those scripts are re-recorded at the '
-                 'fork point; MIN_FILTERED_NUMBER is rewound to fork point - 1 iff it lies above; nothing else is written; one atomic batch', ex_rollback,
-                 '<= 3 rows of arbitrary key space / script / position, <= 2 registered scripts, 2 stored transactions, arbitrary fork point', cuts=RB_CUTS, timeout=2400, mem_gb=16,
-                 min_covers=2, weight=8, field_sensitivity=True),
-        KModelOb('O4.2-rollback-prefix', 'rollback', 'rollback_prefix_related', 'as O4.2-rollback with two registered scripts of which one continues the other (same code hash / hash type, args extended by one byte): '
-                 'the rows of the longer script are never parsed as rows of the shorter one', ex_rollback,
-                 '<= 3 rows, 2 prefix-related scripts', cuts=RB_CUTS, timeout=2400, mem_gb=16, min_covers=1, weight=8, field_sensitivity=True),
         KModelOb('O4.5-filter-cache-dropped', 'ups', 'update_prove_state_clears_cache', 'Peers::update_prove_state (real text, over the real PeerState text): a prove state that carries reorg '
                  'headers drops the peer\'s cached latest block filter hashes (they belong to the abandoned branch and would make the new chain\'s hashes be ignored); '
                  'without reorg headers the cache is kept; other peers untouched', ex_ups, 'arbitrary peer state, <=2 reorg headers, 2 peers', timeout=1200, mem_gb=10,
